@@ -60,13 +60,11 @@ Inductive retctx := RGlobal | RFun (r : option ty).
 
 (* ---- the imported module ------------------------------------------------------------------- *)
 Definition idecl_name (d : idecl) : name :=
-  match d with IVar _ x _ | IConst _ x _ | IFun _ x _ _ | IStruct _ x _ _ => x end.
+  match d with IVar _ x _ | IConst _ x _ | IFun _ x _ _ | IStruct _ x _ _ | IAlias x _ _ => x end.
 Definition idecl_pub (d : idecl) : bool :=
-  match d with IVar p _ _ | IConst p _ _ | IFun p _ _ _ | IStruct p _ _ _ => p end.
+  match d with IVar p _ _ | IConst p _ _ | IFun p _ _ _ | IStruct p _ _ _ => p | IAlias _ _ _ => false end.
 Definition idecl_binding (d : idecl) : binding :=
-  match d with IVar _ _ t => BVar t | IConst _ _ t => BConst t | IFun _ _ _ _ => BFun | IStruct _ _ _ _ => BStruct end.
-Definition idecl_fun (d : idecl) : list (name * fsig) :=
-  match d with IFun _ f ps r => [(f, (ps, r))] | _ => [] end.
+  match d with IVar _ _ t => BVar t | IConst _ _ t => BConst t | IFun _ _ _ _ | IAlias _ _ _ => BFun | IStruct _ _ _ _ => BStruct end.
 
 Fixpoint find_pub (M : imod) (x : name) : option idecl :=
   match M with
@@ -89,6 +87,37 @@ Fixpoint field_in (fs : list (bool * name * ty)) (f : name) : option (bool * ty)
 
 Definition field_of (M : imod) (s f : name) : option (bool * ty) :=
   match struct_of M s with Some (_, fs) => field_in fs f | None => None end.
+
+(* Kombination literals: the constructor aliases of s, as functions from the listed fields' types to s *)
+Fixpoint field_types (fields : list (bool * name * ty)) (fs : list name) : option (list (ty * bool)) :=
+  match fs with
+  | [] => Some []
+  | f :: r => match field_in fields f, field_types fields r with
+              | Some (_, t), Some ts => Some ((t, false) :: ts)
+              | _, _ => None
+              end
+  end.
+
+Fixpoint aliases_of (M0 : imod) (s : name) (fields : list (bool * name * ty)) : list (name * fsig) :=
+  match M0 with
+  | [] => []
+  | IAlias c s' fs :: r =>
+      if Nat.eqb s s'
+      then match field_types fields fs with
+           | Some ps => (c, (ps, Some (TStruct s))) :: aliases_of r s fields
+           | None => aliases_of r s fields
+           end
+      else aliases_of r s fields
+  | _ :: r => aliases_of r s fields
+  end.
+
+(* what an imported declaration adds to the alias table *)
+Definition idecl_fun (M : imod) (d : idecl) : list (name * fsig) :=
+  match d with
+  | IFun _ f ps r => [(f, (ps, r))]
+  | IStruct _ s _ fields => aliases_of M s fields
+  | _ => []
+  end.
 
 (* grammatical gender of a type = the article it takes *)
 Definition gender (M : imod) (t : ty) : option article :=
@@ -269,7 +298,7 @@ Inductive tops_ok (M : imod) : fenv -> env -> list top -> Prop :=
 (* the global scope and the alias table after the import (the last imported declaration first; the order is
    irrelevant because the names are distinct) *)
 Definition scope_of_decls (ds : list idecl) : scope := rev (map (fun d => (idecl_name d, idecl_binding d)) ds).
-Definition funs_of_decls (ds : list idecl) : fenv := rev (flat_map idecl_fun ds).
+Definition funs_of_decls (M : imod) (ds : list idecl) : fenv := rev (flat_map (idecl_fun M) ds).
 
 (* the declarations an import statement brings into the global scope *)
 Inductive import_ok (M : imod) : import -> list idecl -> Prop :=
@@ -279,7 +308,7 @@ Inductive import_ok (M : imod) : import -> list idecl -> Prop :=
 
 Definition wf (p : prog) : Prop :=
   exists ds, import_ok (p_mod p) (p_imp p) ds /\
-             tops_ok (p_mod p) (funs_of_decls ds) [scope_of_decls ds] (p_tops p).
+             tops_ok (p_mod p) (funs_of_decls (p_mod p) ds) [scope_of_decls ds] (p_tops p).
 
 (* ============================================================================================ *)
 (* executable version                                                                           *)
@@ -517,6 +546,6 @@ Definition import_decls (M : imod) (i : import) : option (list idecl) :=
 
 Definition wfb (p : prog) : bool :=
   match import_decls (p_mod p) (p_imp p) with
-  | Some ds => tops_chk (p_mod p) (funs_of_decls ds) [scope_of_decls ds] (p_tops p)
+  | Some ds => tops_chk (p_mod p) (funs_of_decls (p_mod p) ds) [scope_of_decls ds] (p_tops p)
   | None => false
   end.
